@@ -137,7 +137,11 @@ def run(ctx):
     ctx.tlc('Handshake', 'MC_Handshake_c05_all_run.cfg', cfgtext=big, timeout=1500)
     graphs = [build_graph(ctx, 'c05', cfg(HI=("I1",), HR=("R1",) if ctx.quick else ("R1", "RA"), AI=("XI",), AR=("XR",), adv=ALL_ADV,
                                           vcs=vcs, ops=C05_OPS, pk=ALL_PK, scns=("advinit", "advresp", "pair")))]
-    plan = {'graphs': graphs, 'limit': 14000 if ctx.quick else 120000, 'random': 150 if ctx.quick else 2500, 'length': 40}
+    # one long-lived Credential per identity: an honest session first, then the adversary (K: the honest peer's certificate
+    # bytes under its own static key; M: the insider) against another machine of the same victim identity
+    graphs.append(build_graph(ctx, 'c05_shared', cfg(HI=("I1", "I2"), HR=("R1", "R2"), AI=("XI",), AR=("XR",), adv=("K", "M"),
+                                                     vcs=(1,) if ctx.quick else (1, 2, 3), ops=["id", "hdrflip"], scns=("memo_r", "memo_i"))))
+    plan = {'graphs': graphs, 'limit': 40000 if ctx.quick else 120000, 'random': 150 if ctx.quick else 2500, 'length': 40}
     with open(os.path.join(ctx.scratch, 'c05_plan.json'), 'w') as f:
         json.dump(plan, f)
     res = ctx.gotest('handshake', 'TestVerif_C05', also=('hs',), timeout=1500)
